@@ -3,7 +3,7 @@
 # usage: tools/sweep.sh "<seeds>" [tier]
 SEEDS=${1:-"1 2 3"}
 TIER=${2:-quick}
-cd /verif/harness
+cd /verif/harness && cargo build --release --offline -q 2>&1 | grep -E "^error" ; true
 for seed in $SEEDS; do
   for p in C01 C02 C03 C04 C05 C06 C07 C08 C09 C10 C11 C12 C13 C14 C15 C17 C18 C19 C20; do
     out=$(./target/release/hbv-run $p --tier $TIER --seed $seed --replays /tmp/sweep_replays --evidence /tmp/sweep_ev_$p.json 2>&1 | grep -E "^FOUND|^SUMMARY|WATCHDOG|panicked")
